@@ -170,7 +170,7 @@ MUTANTS: List[Mutant] = [
     B("c12-signature-transposed", "C12", SIG, "        source_size = len(hyperedge[0])\n        target_size = len(hyperedge[1])", "        source_size = len(hyperedge[1])\n        target_size = len(hyperedge[0])", "K-ROLE"),
     B("c12-signature-unbounded", "C12", SIG, "hypergraph.get_edges(size=max_hyperedge_size, up_to=True)", "hypergraph.get_edges()", "B-BOUND"),
     B("c12-reach-before-guard", "C12", REC, "    for edge in edges:\n        size = len(edge[0]) + len(edge[1])\n        if 2 <= size <= max_hyperedge_size:\n            tot[size] += 1\n            edge_tuple = (tuple(edge[0]), tuple(edge[1]))\n            edge_set[edge_tuple] = 1\n\n            # Track reachable nodes for each head node", "    for edge in edges:\n        size = len(edge[0]) + len(edge[1])\n        for node in edge[0]:\n            node_reach.setdefault(node, set()).update(edge[1])\n        if 2 <= size <= max_hyperedge_size:\n            tot[size] += 1\n            edge_tuple = (tuple(edge[0]), tuple(edge[1]))\n            edge_set[edge_tuple] = 1\n\n            # Track reachable nodes for each head node", "G-DOM"),
-    B("c12-ratio-unguarded", "C12", REC, "        if tot[size] != 0:\n            rec[size] = rec[size] / tot[size]\n        else:\n            rec[size] = 0\n\n    return rec\n\n\ndef strong", "        rec[size] = rec[size] / max(tot[size], 1) if True else 0\n\n    return rec\n\n\ndef strong", "G-RATIO"),
+    B("c12-ratio-unguarded", "C12", REC, "        if tot[size] != 0:\n            rec[size] = rec[size] / tot[size]\n        else:\n            rec[size] = 0\n\n    return rec\n\n\ndef strong", "        rec[size] = rec[size] / tot[size]\n\n    return rec\n\n\ndef strong", "G-RATIO"),
     # ------------------------------------------------------------------ C13
     B("c13-capacity-cross", "C13", CM, "            elif len(g1) < len(f1):\n                g1.append(v)", "            elif len(g1) < len(f2):\n                g1.append(v)", "P-GUARDCAP"),
     B("c13-append-both", "C13", CM, "                if np.random.rand() < 0.5:\n                    g1.append(v)\n                else:\n                    g2.append(v)", "                if np.random.rand() < 0.5:\n                    g1.append(v)\n                g2.append(v)", "P-LINEAR"),
